@@ -756,6 +756,58 @@ pub fn tx_family_corpus() -> Vec<String> {
     v
 }
 
+/// C04: well-formed records around MAX_PACKET_SIZE on the paths that do not go through `RecordStore::put`
+/// (replication; the client entry point directly).  Exact lengths for the unsigned kinds (chunk, junk = header +
+/// filler), same side of the limit for the signed ones.
+pub fn big_corpus(thorough: bool) -> Vec<String> {
+    let mut v: Vec<String> = [
+        "big r chunk -1", "big r chunk 0", "big r chunk 1", "big r pad -1", "big r pad 0", "big c chunkp -1", "big c chunkp 0",
+        "big c padp 0", "big r junk -1", "big r junk 0", "big c junkp -1", "big c junkp 0",
+    ]
+    .iter()
+    .map(|s| s.to_string())
+    .collect();
+    if thorough {
+        for l in ["big r chunk 1000000", "big r chunk 5242879", "big r pad 4000000", "big c chunkp 1000", "big c padp -1", "big c pad 0", "big r chunk -4000000", "big c junkp 1", "big r junk 1"] {
+            v.push(l.to_string());
+        }
+    }
+    v
+}
+
+/// C03 "only as updates of records the node already holds", with the store dropping keys (eviction, clean-up):
+/// the audit's interleavings (has-key answered "held", key dropped, local read finds nothing) for every place
+/// where a put without valid payment is accepted; the benign order (read first, dropped afterwards); a dropped
+/// key before the validation starts; an evicted key re-created by a replicated copy.
+pub fn evict_corpus() -> Vec<String> {
+    let bad = "0.0.1.e.1.1.5,1.1.1.f.1.1.2,2.2.1.f.1.1.3;0.1.2";
+    let good = format!("{};0.1.2", GOOD.join(","));
+    let hists: Vec<Vec<String>> = vec![
+        vec!["new 1=S3".into(), "begin a c pad 1 S0.5.v -".into(), "ans a".into(), "evict 1".into(), "run a".into(), "ans a".into(), "run a".into()],
+        vec!["new 1=S3".into(), "begin a c pad 1 S0.1.v -".into(), "ans a".into(), "evict 1".into(), "run a".into(), "ans a".into(), "run a".into()],
+        vec!["new 1=S3".into(), "begin a c pad 1 S0.5.v -".into(), "ans a".into(), "run a".into(), "ans a".into(), "evict 1".into(), "run a".into()],
+        vec!["new 1=S3".into(), "evict 1".into(), "begin a c pad 1 S0.5.v -".into(), "ans a".into(), "run a".into()],
+        vec!["new 2=R1".into(), "begin a c reg 2 R0.g.2v -".into(), "ans a".into(), "evict 2".into(), "run a".into(), "ans a".into(), "run a".into()],
+        vec!["new 2=R1".into(), "begin a c reg 2 R0.g.2v -".into(), "ans a".into(), "run a".into(), "ans a".into(), "evict 2".into(), "run a".into(), "ans a".into(), "run a".into()],
+        vec!["new 2=R1".into(), "begin a c reg 2 R0.g.2v -".into(), "ans a".into(), "run a".into(), "ans a".into(), "run a".into(), "ans a".into(), "evict 2".into(), "run a".into()],
+        vec!["new 1=T1".into(), format!("begin a c txp 1 T0.2.v {bad}"), "ans a".into(), "evict 1".into(), "run a".into(), "ans a".into(), "run a".into()],
+        vec!["new 1=T1".into(), format!("begin a c txp 1 T0.2.v {good}"), "ans a".into(), "evict 1".into(), "run a".into(), "ans a".into(), "run a".into()],
+        vec!["new 2=R1".into(), format!("begin a c regp 2 R0.g.2v {bad}"), "ans a".into(), "evict 2".into(), "run a".into(), "ans a".into(), "run a".into()],
+        vec!["new 2=R1".into(), format!("begin a c regp 2 R0.g.2v {good}"), "ans a".into(), "evict 2".into(), "run a".into(), "ans a".into(), "run a".into()],
+        vec!["new 1=S3".into(), "begin a c pad 1 S0.5.v -".into(), "ans a".into(), "evict 1".into(), "deliver r pad 1 S0.2.v -".into(), "run a".into(), "ans a".into(), "run a".into()],
+        vec!["new 1=S3".into(), "begin a r pad 1 S0.5.v -".into(), "evict 1".into(), "ans a".into(), "run a".into()],
+        vec!["new 0=C".into(), format!("begin a c chunkp 0 C0 {bad}"), "ans a".into(), "evict 0".into(), "run a".into()],
+    ];
+    let mut v = vec![];
+    for h in hists {
+        for l in h {
+            v.push(l);
+        }
+        v.push("dump".to_string());
+    }
+    v
+}
+
 pub struct Gen {
     queue: VecDeque<String>,
     /// ids of validations begun in the current interleaved phase
@@ -797,7 +849,16 @@ impl Gen {
                     g.queue.push_back(l);
                 }
             }
+            "c03evict" => {
+                for l in evict_corpus() {
+                    g.queue.push_back(l);
+                }
+                g.remaining_histories = n;
+            }
             "c04" => {
+                for l in big_corpus(n >= 2000) {
+                    g.queue.push_back(l);
+                }
                 for l in corpus() {
                     g.queue.push_back(l);
                 }
@@ -847,7 +908,58 @@ impl Gen {
         g
     }
 
+    /// one or two validations of a mutable key interleaved at their store reads, with the store dropping that key
+    /// (once or twice, anywhere) and occasionally getting it back from a replicated copy
+    fn new_evict_history(&mut self) {
+        let rng = &mut self.rng;
+        let fam = *rng.pick(&["pad", "tx", "reg"]);
+        let id = rng.below(3);
+        let dk = 3 * id + space(fam);
+        let store = if rng.chance(4, 5) {
+            let d = match fam {
+                "pad" => format!("S{}", rng.range(0, 5)),
+                "tx" => format!("T{}", join(&subset(rng, 1, 3, true), ".")),
+                _ => format!("R{}", join(&subset(rng, 1, 3, false), ".")),
+            };
+            format!("{dk}={d}")
+        } else {
+            "-".to_string()
+        };
+        self.queue.push_back(format!("new {store}"));
+        let k = if rng.chance(1, 3) { 2 } else { 1 };
+        for i in 0..k {
+            let name = ["a", "b"][i];
+            // mostly client uploads without a valid payment (the places where "update only" matters)
+            let d = match rng.below(4) {
+                0 => mutable_delivery_at(fam, id, 0, rng),
+                _ => {
+                    let content = match fam {
+                        "pad" => format!("S{id}.{}.v", rng.range(0, 9)),
+                        "tx" => format!("T{id}.{}.v", rng.range(1, 6)),
+                        _ => format!("R{id}.g.{}", subset(rng, 1, 6, true).iter().map(|o| format!("{o}v")).collect::<Vec<_>>().join(",")),
+                    };
+                    match fam {
+                        "tx" => {
+                            let bits: Vec<bool> = (0..6).map(|_| !rng.chance(1, 3)).collect();
+                            format!("c txp {dk} {content} {}", pay_for(&bits, rng))
+                        }
+                        _ if rng.chance(1, 3) => {
+                            let bits: Vec<bool> = (0..6).map(|_| !rng.chance(1, 3)).collect();
+                            format!("c {fam}p {dk} {content} {}", pay_for(&bits, rng))
+                        }
+                        _ => format!("c {fam} {dk} {content} -"),
+                    }
+                }
+            };
+            self.queue.push_back(format!("begin {name} {d}"));
+        }
+        self.queue.push_back(format!("@ievict {dk} {}", rng.range(1, 2)));
+    }
+
     fn new_history(&mut self) {
+        if self.mode == "c03evict" {
+            return self.new_evict_history();
+        }
         let rng = &mut self.rng;
         let fam = *rng.pick(&["pad", "pad", "tx", "reg"]);
         let id = rng.below(3);
@@ -909,9 +1021,32 @@ impl Gen {
                     self.queue.push_front("@interleave".into());
                     return Some(pick);
                 }
+                Some(l) if l.starts_with("@ievict ") => {
+                    let p: Vec<&str> = l.split_whitespace().collect();
+                    let (key, budget) = (p[1].to_string(), p[2].parse::<u64>().unwrap_or(0));
+                    let live: Vec<String> = ["a", "b"]
+                        .iter()
+                        .filter_map(|i| match phase(i) {
+                            1 => Some(format!("ans {i}")),
+                            2 => Some(format!("run {i}")),
+                            _ => None,
+                        })
+                        .collect();
+                    if live.is_empty() {
+                        return Some("dump".into());
+                    }
+                    if budget > 0 && self.rng.chance(1, 3) {
+                        self.queue.push_front(format!("@ievict {key} {}", budget - 1));
+                        // now and then the key comes back through replication before the validation goes on
+                        return Some(format!("evict {key}"));
+                    }
+                    let pick = self.rng.pick(&live).clone();
+                    self.queue.push_front(format!("@ievict {key} {budget}"));
+                    return Some(pick);
+                }
                 Some(l) => return Some(l),
                 None => {
-                    if self.mode == "c07" && self.remaining_histories > 0 {
+                    if (self.mode == "c07" || self.mode == "c03evict") && self.remaining_histories > 0 {
                         self.remaining_histories -= 1;
                         self.new_history();
                     } else {
